@@ -1,7 +1,7 @@
 """C08 gather_and_close waits for everything, then closes for good."""
 from asyncio_taskpool import TaskPool
 from asyncio_taskpool.exceptions import PoolIsClosed
-from engine.prog import Interp, act, parts_product, select
+from engine.prog import Interp, act, parts_product, refine, select
 from engine.spec import Family
 from engine.world import Excluded, World, task_outcome
 
@@ -128,10 +128,11 @@ def families(tier):
                 "x3 == %d or (x2 <= 1 and 2 <= x3 <= 3) or (2 <= x2 <= 3 and x3 <= 1)" % NOPP, "a3 <= 1", "t == 0 or t >= 4", "rx == 0 or x2 >= 4"]
         parts = [p for p in parts_product(cb=(3,), x1=range(4), x2=range(NOPP + 1), rx=(0, 1))
                  if not ("rx == 1" in p and any(("x2 == %d" % k) in p for k in range(4)))]
+        parts = refine(parts, ["x2 == 2", "x2 == 3"], "x3", (0, 1, NOPP))
     else:
         pre += ["t1 >= 4", "c3 == %d" % NOPC, "b3 == 0", "size <= 3", "b1 <= 1", "a2 <= 1", "b2 <= 1",
                 "x3 == %d or (x2 <= 1 and 2 <= x3 <= 3) or (2 <= x2 <= 3 and x3 <= 1)" % NOPP, "a3 <= 1", "t == 0 or t >= 4"]
-        parts = parts_product(cb=(1, 3), x1=range(4), x2=range(NOPP + 1), rx=(0, 1))
+        parts = refine(parts_product(cb=(1, 3), x1=range(4), x2=range(NOPP + 1), rx=(0, 1)), ["x2 == 0", "x2 == 1"], "c1", range(NOPC + 1))
     return [Family(name="gather", fn="tpl_gather", params=P, pre=pre, parts=parts,
                    twin_pre=["cb == 3", "x1 == 2", "x2 == 0", "x3 == %d" % NOPP, "rx == 0", "c1 == 0", "c2 == %d" % NOPC],
                    twin_args=[2, 3, 2, 0, 0, NOPP, 0, 0, 0, 0, NOPC, 0, NOPC, 0, 9, 9])]
